@@ -17,11 +17,42 @@ def R(v):
     return to_z3(v, "real")
 
 
-def act(M: NArr, p):
-    """M . (p, 1) for a (4,4) NArr and a 3-tuple of z3 reals -> 4 z3 reals."""
-    it = M.items
+def act(M, p):
+    """M . (p, 1) for a (4,4) NArr (or its 16 entries, row-major) and a 3-tuple of z3 reals -> 4 z3 reals."""
+    it = M.items if isinstance(M, NArr) else list(M)
     hp = list(p) + [z3.RealVal(1)]
     return [sum((R(it[4 * r + c]) * hp[c] for c in range(4)), z3.RealVal(0)) for r in range(4)]
+
+
+def acts_as(M, p, expected):
+    """the formula of every builder / constructor postcondition: M . (p, 1) = (expected, 1)"""
+    got = act(M, p)
+    return z3.And(*[g == e for g, e in zip(got[:3], expected)], got[3] == 1)
+
+
+def last_row_affine(M):
+    it = M.items if isinstance(M, NArr) else list(M)
+    return z3.And(R(it[12]) == 0, R(it[13]) == 0, R(it[14]) == 0, R(it[15]) == 1)
+
+
+def affine_about(M, p, c0):
+    """the formula of AffineTransform.__call__'s postcondition: the image of p under the stated map about the centre c0,
+    q = A (p - c0) + b + c0  (A, b = linear and translation part of M)"""
+    it = M.items if isinstance(M, NArr) else list(M)
+    d = [p[k] - c0[k] for k in range(3)]
+    return [R(it[4 * k]) * d[0] + R(it[4 * k + 1]) * d[1] + R(it[4 * k + 2]) * d[2] + R(it[4 * k + 3]) + c0[k] for k in range(3)]
+
+
+# the STATED maps, one source for the builders' / constructors' / transform classmethods' postconditions and for the lemmas:
+# prm = dict of z3 reals (tx.. / sx.. / c, s = cos, sin of the angle / nx, ny, nz = unit axis), p = 3 z3 reals
+FORMS = {
+    "translate": lambda prm, p: [p[0] + prm["tx"], p[1] + prm["ty"], p[2] + prm["tz"]],
+    "scale": lambda prm, p: [p[0] * prm["sx"], p[1] * prm["sy"], p[2] * prm["sz"]],
+    "rot_x": lambda prm, p: [p[0], prm["c"] * p[1] - prm["s"] * p[2], prm["s"] * p[1] + prm["c"] * p[2]],
+    "rot_y": lambda prm, p: [prm["c"] * p[0] + prm["s"] * p[2], p[1], -prm["s"] * p[0] + prm["c"] * p[2]],
+    "rot_z": lambda prm, p: [prm["c"] * p[0] - prm["s"] * p[1], prm["s"] * p[0] + prm["c"] * p[1], p[2]],
+    "rodrigues": lambda prm, p: rodrigues(prm["c"], prm["s"], (prm["nx"], prm["ny"], prm["nz"]), p),
+}
 
 
 def shape44(E, vars, old):
@@ -43,11 +74,22 @@ def maps_to(expected):
 
     def f(E, vars, old):
         p = (R(vars["px"]), R(vars["py"]), R(vars["pz"]))
-        got = act(vars["result"], p)
-        exp = expected(E, vars, p)
-        return z3.And(*[g == e for g, e in zip(got[:3], exp)], got[3] == 1)
+        return acts_as(vars["result"], p, expected(E, vars, p))
 
     return f
+
+
+def params_of(E, v, names=("tx", "ty", "tz", "sx", "sy", "sz", "nx", "ny", "nz")):
+    """the parameters of a stated map from a frame: the reals present, and (c, s) = (cos, sin) of `theta`"""
+    prm = {k: R(v[k]) for k in names if k in v and v[k] is not None}
+    if "theta" in v:
+        c, s = trig(E, v["theta"])
+        prm["c"], prm["s"] = R(c), R(s)
+    return prm
+
+
+def stated(form):
+    return lambda E, v, p: FORMS[form](params_of(E, v), p)
 
 
 def rodrigues(c, s, n, p):
@@ -64,13 +106,13 @@ def register(Rg: Registry):
         pure_inline=True, key=f"{UT}:translate3d", prop="C12",
         setup=lambda S: dict(tx=S.real("tx"), ty=S.real("ty"), tz=S.real("tz"), **point(S)),
         ensures=[("shape-4x4", shape44), ("homogeneous-last-row", affine_row),
-                 ("moves-every-point-by-t", maps_to(lambda E, v, p: [p[0] + R(v["tx"]), p[1] + R(v["ty"]), p[2] + R(v["tz"])]))],
+                 ("moves-every-point-by-t", maps_to(stated("translate")))],
     )
     Rg.add(
         pure_inline=True, key=f"{UT}:scale3d", prop="C12",
         setup=lambda S: dict(sx=S.real("sx"), sy=S.real("sy"), sz=S.real("sz"), **point(S)),
         ensures=[("shape-4x4", shape44), ("homogeneous-last-row", affine_row),
-                 ("scales-per-axis", maps_to(lambda E, v, p: [p[0] * R(v["sx"]), p[1] * R(v["sy"]), p[2] * R(v["sz"])]))],
+                 ("scales-per-axis", maps_to(stated("scale")))],
     )
 
     def cs(E, v):
@@ -82,19 +124,19 @@ def register(Rg: Registry):
         pure_inline=True, key=f"{UT}:rotate3d_z", prop="C12",
         setup=lambda S: dict(theta=S.real("theta"), **point(S)),
         ensures=[("shape-4x4", shape44), ("homogeneous-last-row", affine_row),
-                 ("right-handed-about-z", maps_to(lambda E, v, p: (lambda c, s: [c * p[0] - s * p[1], s * p[0] + c * p[1], p[2]])(*cs(E, v))))],
+                 ("right-handed-about-z", maps_to(stated("rot_z")))],
     )
     Rg.add(
         pure_inline=True, key=f"{UT}:rotate3d_x", prop="C12",
         setup=lambda S: dict(theta=S.real("theta"), **point(S)),
         ensures=[("shape-4x4", shape44), ("homogeneous-last-row", affine_row),
-                 ("right-handed-about-x", maps_to(lambda E, v, p: (lambda c, s: [p[0], c * p[1] - s * p[2], s * p[1] + c * p[2]])(*cs(E, v))))],
+                 ("right-handed-about-x", maps_to(stated("rot_x")))],
     )
     Rg.add(
         pure_inline=True, key=f"{UT}:rotate3d_y", prop="C12",
         setup=lambda S: dict(theta=S.real("theta"), **point(S)),
         ensures=[("shape-4x4", shape44), ("homogeneous-last-row", affine_row),
-                 ("right-handed-about-y", maps_to(lambda E, v, p: (lambda c, s: [c * p[0] + s * p[2], p[1], -s * p[0] + c * p[2]])(*cs(E, v))))],
+                 ("right-handed-about-y", maps_to(stated("rot_y")))],
     )
 
     def axis_setup(S):
@@ -108,7 +150,7 @@ def register(Rg: Registry):
         pure_inline=True, key=f"{UT}:rotate3d", prop="C12",
         setup=axis_setup,
         ensures=[("shape-4x4", shape44), ("homogeneous-last-row", affine_row),
-                 ("rodrigues-right-handed", maps_to(lambda E, v, p: rodrigues(*cs(E, v), (R(v["nx"]), R(v["ny"]), R(v["nz"])), p)))],
+                 ("rodrigues-right-handed", maps_to(stated("rodrigues")))],
     )
 
 
@@ -124,9 +166,45 @@ def _first_root_pos(E, t):
     return r
 
 
+def tree_unchanged(t, t0):
+    """frame clause "the input tree is untouched": `t` (the object as it is now) against its entry snapshot `t0`:
+    same ndata keys, every column of the same length with the same entries, source / comments / names as they were"""
+    from pyvc.values import Obj, PList, SArr
+
+    if not isinstance(t, Obj) or set(t.fields) != set(t0.fields):
+        return False
+    nd, nd0 = t.fields["ndata"].items, t0.fields["ndata"].items
+    if nd is None or nd0 is None or list(nd) != list(nd0):
+        return False
+    out = []
+    for c in nd0:
+        a, b = nd[c], nd0[c]
+        if type(a) is not type(b) or a.kind != b.kind:
+            return False
+        if isinstance(a, SArr):
+            out.append(a.nz() == b.nz())
+            if not a.arr.eq(b.arr):
+                i = z3.Int(fresh_name("i"))
+                out.append(z3.ForAll([i], z3.Implies(z3.And(i >= 0, i < b.nz()), z3.Select(a.arr, i) == z3.Select(b.arr, i))))
+        else:
+            if a.shape != b.shape:
+                return False
+            out.extend(to_z3(p, a.kind) == to_z3(q, a.kind) for p, q in zip(a.items, b.items))
+    for f in ("source", "names", "types"):
+        if f in t0.fields and t.fields[f] is not t0.fields[f] and t.fields[f] != t0.fields[f]:
+            return False
+    cm, cm0 = t.fields.get("comments"), t0.fields.get("comments")
+    if isinstance(cm0, PList) and (not isinstance(cm, PList) or cm.items != cm0.items):
+        return False
+    return z3.And(*out) if out else True
+
+
 def _M3(tm):
     it = tm.items
     return [[R(it[4 * r + c]) for c in range(4)] for r in range(3)]
+
+
+AFF = {}  # clause builders shared with the transform classmethods below
 
 
 def register_affine(Rg):
@@ -154,10 +232,9 @@ def register_affine(Rg):
             else:
                 r = _first_root_pos(E, x0)
                 c0 = [z3.Select(col(x0, c).arr, r) for c in "xyz"]
-            d = [p[k] - c0[k] for k in range(3)]
             # the stated map about the stated centre: q = A (p - c) + b + c, so the centre
             # moves by the matrix' own translation part only (fixed for scaling / rotation)
-            exp = [M[k][0] * d[0] + M[k][1] * d[1] + M[k][2] * d[2] + M[k][3] + c0[k] for k in range(3)]
+            exp = affine_about(o["self"].fields["tm"], p, c0)
             return z3.ForAll([i], z3.Implies(z3.And(i >= 0, i < n), z3.And(*[q[k] == exp[k] for k in range(3)])))
 
         return f
@@ -169,9 +246,19 @@ def register_affine(Rg):
         same = [z3.Select(col(y, c).arr, i) == z3.Select(col(x0, c).arr, i) for c in ("id", "type", "r", "pid")]
         return z3.And(nof(y) == n, set(y.fields["ndata"].items) == set(x0.fields["ndata"].items), z3.ForAll([i], z3.Implies(z3.And(i >= 0, i < n), z3.And(*same))))
 
+    def xyz_lengths(E, v, o):
+        """every column of the result (the replaced x / y / z included) has the input's length"""
+        x0, y = o["x"], v["result"]
+        return z3.And(*[col(y, c).nz() == nof(x0) for c in y.fields["ndata"].items])
+
     def result_fresh(E, v, o):
         y = v["result"]
         return all(a.uid not in E.entry_uids for a in y.fields["ndata"].items.values()) and y.uid not in E.entry_uids and y.fields["ndata"].uid not in E.entry_uids
+
+    def input_untouched(name):
+        return (lambda E, v, o: tree_unchanged(v[name], o[name]))
+
+    AFF.update(untouched=untouched, xyz_lengths=xyz_lengths, result_fresh=result_fresh, input_untouched=input_untouched)
 
     for center in ("origin", "root"):
         Rg.add(
@@ -204,6 +291,75 @@ def register_affine(Rg):
         ensures=[("root-moved-to-origin-rigidly", to_origin), ("topology-types-radii-untouched", untouched), ("result-is-fresh", result_fresh)],
     )
 
+    # ------------------------------------------------------------------ AffineTransform.apply (static): ANY 4x4 matrix
+    def w_nonzero(E, v, o):
+        x0, it = v["x"], v["tm"].items
+        i = z3.Int(fresh_name("i"))
+        p = [z3.Select(col(x0, c).arr, i) for c in "xyz"]
+        w = R(it[12]) * p[0] + R(it[13]) * p[1] + R(it[14]) * p[2] + R(it[15])
+        return z3.ForAll([i], z3.Implies(z3.And(i >= 0, i < nof(x0)), w != 0))
+
+    def projective(E, v, o):
+        """every node p -> (M (p,1))[0:3] / (M (p,1))[3]"""
+        x0, y, tm = o["x"], v["result"], o["tm"]
+        i = z3.Int(fresh_name("i"))
+        p = tuple(z3.Select(col(x0, c).arr, i) for c in "xyz")
+        q = [z3.Select(col(y, c).arr, i) for c in "xyz"]
+        h = act(tm, p)
+        return z3.ForAll([i], z3.Implies(z3.And(i >= 0, i < nof(x0)), z3.And(*[q[k] * h[3] == h[k] for k in range(3)], h[3] != 0)))
+
+    def matrix_untouched(name):
+        def f(E, v, o):
+            a, b = v[name] if name in v else v["self"].fields[name], o[name] if name in o else o["self"].fields[name]
+            return a.shape == b.shape and z3.And(*[R(x) == R(y) for x, y in zip(a.items, b.items)])
+
+        return f
+
+    def apply_setup(S):
+        tm = NArr((4, 4), [S.real(f"m{r}{c}") for r in range(4) for c in range(4)], "real")
+        tm.frozen = True
+        return dict(x=sym_tree(S, "x"), tm=tm)
+
+    Rg.add(
+        f"{GEO}:AffineTransform.apply", prop="C12", setup=apply_setup,
+        requires=[("homogeneous-coordinate-nonzero-at-every-node", w_nonzero)],
+        ensures=[("every-node-p-goes-to-(M.p)/w", projective), ("topology-types-radii-untouched", untouched), ("coordinate-columns-keep-their-length", xyz_lengths),
+                 ("result-is-fresh", result_fresh), ("input-untouched", input_untouched("x")), ("matrix-untouched", matrix_untouched("tm"))],
+        notes="any 4x4 matrix whose homogeneous coordinate does not vanish on the nodes (numpy would give inf/nan there)",
+    )
+
+    # ------------------------------------------------------------------ AffineTransform.__init__
+    def init_setup(center, fmt, names):
+        def f(S):
+            from swcgeom.transforms.geometry import AffineTransform
+
+            tm = NArr((4, 4), [S.real(f"m{r}{c}") for r in range(4) for c in range(4)], "real")
+            tm.frozen = True
+            return dict(self=S.obj(AffineTransform), tm=tm, center=center, fmt=fmt, names=names)
+
+        return f
+
+    def warned(E, v, o):
+        return len(E.warn_log) == (o["fmt"] is not None) + (o["names"] is not None)
+
+    Rg.add(
+        f"{GEO}:AffineTransform.__init__", prop="C12",
+        variants={"center=origin": init_setup("origin", None, None), "center=root": init_setup("root", None, None), "center=soma": init_setup("soma", None, None),
+                  "fmt-given": init_setup("origin", "Rotate-1-0-0-0.5000", None), "names-given": init_setup("root", None, __import__("swcgeom.core.swc_utils", fromlist=["x"]).get_names())},
+        ensures=["stores-the-matrix-it-was-given :: same(self.tm, tm)", "centre-as-requested :: self.center == center",
+                 ("matrix-untouched", matrix_untouched("tm")), ("one-deprecation-warning-per-deprecated-argument", warned)],
+        notes="no validation of `center` exists in the code: any value other than 'root' / 'soma' is treated as 'origin' by __call__",
+    )
+
+    # ------------------------------------------------------------------ TranslateOrigin.__call__ (plumbing to the classmethod)
+    Rg.add(
+        f"{GEO}:TranslateOrigin.__call__", prop="C12",
+        setup=lambda S: dict(self=S.obj(__import__("swcgeom.transforms.geometry", fromlist=["x"]).TranslateOrigin), x=sym_tree(S, "x")),
+        requires=[has_root],
+        ensures=[("root-moved-to-origin-rigidly", to_origin), ("topology-types-radii-untouched", untouched), ("coordinate-columns-keep-their-length", xyz_lengths),
+                 ("result-is-fresh", result_fresh), ("input-untouched", input_untouched("x"))],
+    )
+
 
 _reg0 = register
 
@@ -214,94 +370,186 @@ def register(Rg):  # noqa: F811
 
 
 # ===========================================================================
-# constructors and derived lemmas
+# constructors, the transform classmethods (constructor + __call__ on the real chain), derived lemmas
+CLASSES = {  # class name -> (stated form, parameter names)
+    "Translate": ("translate", ("tx", "ty", "tz")),
+    "Scale": ("scale", ("sx", "sy", "sz")),
+    "RotateX": ("rot_x", ("theta",)),
+    "RotateY": ("rot_y", ("theta",)),
+    "RotateZ": ("rot_z", ("theta",)),
+    "Rotate": ("rodrigues", ("n", "theta")),
+}
+
+
 def register_ctors(Rg):
-    def tm_acts(expected):
-        def f(E, v, o):
-            p = (R(v["px"]), R(v["py"]), R(v["pz"]))
-            got = act(v["self"].fields["tm"], p)
-            exp = expected(E, v, p)
-            return z3.And(*[g == e for g, e in zip(got[:3], exp)], got[3] == 1)
-
-        return f
-
-    def cs(E, v):
-        c, s = trig(E, v["theta"])
-        return R(c), R(s)
-
     import swcgeom.transforms.geometry as G
+    from contracts.common import col, nof, sym_tree
 
-    def mk(cls, **params):
+    def tm_acts(form):
+        return lambda E, v, o: acts_as(v["self"].fields["tm"], (R(v["px"]), R(v["py"]), R(v["pz"])), stated(form)(E, v, (R(v["px"]), R(v["py"]), R(v["pz"]))))
+
+    def tm_affine(E, v, o):
+        return last_row_affine(v["self"].fields["tm"])
+
+    def args_of(S, cname):
+        """symbolic constructor arguments of class `cname` (the axis of Rotate is a unit vector)"""
+        d = {}
+        for k in CLASSES[cname][1]:
+            if k == "n":
+                nx, ny, nz = S.real("nx"), S.real("ny"), S.real("nz")
+                S.assume(nx.z * nx.z + ny.z * ny.z + nz.z * nz.z == 1)
+                d.update(n=NArr((3,), [nx, ny, nz], "real"), nx=nx, ny=ny, nz=nz)
+            else:
+                d[k] = S.real(k)
+        return d
+
+    def ctor_setup(cname, center):
         def setup(S):
-            d = dict(self=S.obj(cls), **point(S))
-            for k, kind in params.items():
-                d[k] = S.real(k) if kind == "real" else kind
+            d = dict(self=S.obj(getattr(G, cname)), **point(S), **args_of(S, cname))
+            if center is not None:
+                d["center"] = center
             return d
 
         return setup
 
-    Rg.add(f"{GEO}:Translate.__init__", prop="C12", setup=mk(G.Translate, tx="real", ty="real", tz="real"),
-           ensures=[("matrix-translates-by-t", tm_acts(lambda E, v, p: [p[0] + R(v["tx"]), p[1] + R(v["ty"]), p[2] + R(v["tz"])])),
-                    "centre-is-origin :: self.center == 'origin'"])
-    for center in ("root", "origin"):
-        pass
-    Rg.add(f"{GEO}:Scale.__init__", prop="C12",
-           variants={c: mk(G.Scale, sx="real", sy="real", sz="real", center=c) for c in ("root", "origin")},
-           ensures=[("matrix-scales-per-axis", tm_acts(lambda E, v, p: [p[0] * R(v["sx"]), p[1] * R(v["sy"]), p[2] * R(v["sz"])])),
-                    "centre-as-requested :: self.center == center"])
-    Rg.add(f"{GEO}:RotateX.__init__", prop="C12", variants={c: mk(G.RotateX, theta="real", center=c) for c in ("root", "origin")},
-           ensures=[("matrix-rotates-about-x", tm_acts(lambda E, v, p: (lambda c, s: [p[0], c * p[1] - s * p[2], s * p[1] + c * p[2]])(*cs(E, v)))),
-                    "centre-as-requested :: self.center == center"])
-    Rg.add(f"{GEO}:RotateY.__init__", prop="C12", variants={c: mk(G.RotateY, theta="real", center=c) for c in ("root", "origin")},
-           ensures=[("matrix-rotates-about-y", tm_acts(lambda E, v, p: (lambda c, s: [c * p[0] + s * p[2], p[1], -s * p[0] + c * p[2]])(*cs(E, v)))),
-                    "centre-as-requested :: self.center == center"])
-    Rg.add(f"{GEO}:RotateZ.__init__", prop="C12", variants={c: mk(G.RotateZ, theta="real", center=c) for c in ("root", "origin")},
-           ensures=[("matrix-rotates-about-z", tm_acts(lambda E, v, p: (lambda c, s: [c * p[0] - s * p[1], s * p[0] + c * p[1], p[2]])(*cs(E, v)))),
-                    "centre-as-requested :: self.center == center"])
+    POST_NAME = {"Translate": "matrix-translates-by-t", "Scale": "matrix-scales-per-axis", "RotateX": "matrix-rotates-about-x", "RotateY": "matrix-rotates-about-y",
+                 "RotateZ": "matrix-rotates-about-z", "Rotate": "matrix-is-rodrigues"}
+    for cname, (form, _) in CLASSES.items():
+        if cname == "Translate":
+            Rg.add(f"{GEO}:Translate.__init__", prop="C12", setup=ctor_setup(cname, None),
+                   ensures=[(POST_NAME[cname], tm_acts(form)), ("matrix-is-affine", tm_affine), "centre-is-origin :: self.center == 'origin'"])
+        else:
+            Rg.add(f"{GEO}:{cname}.__init__", prop="C12", variants={c: ctor_setup(cname, c) for c in ("root", "origin")},
+                   ensures=[(POST_NAME[cname], tm_acts(form)), ("matrix-is-affine", tm_affine), "centre-as-requested :: self.center == center"])
 
-    def rot_setup(center):
+    # ------------------------------------------------------------------ X.transform(x, ...) = X(...)(x): constructor and __call__ on the REAL chain
+    def chain_setup(cname, center):
         def setup(S):
-            nx, ny, nz = S.real("nx"), S.real("ny"), S.real("nz")
-            S.assume(nx.z * nx.z + ny.z * ny.z + nz.z * nz.z == 1)
-            return dict(self=S.obj(G.Rotate), n=NArr((3,), [nx, ny, nz], "real"), theta=S.real("theta"), center=center, nx=nx, ny=ny, nz=nz, **point(S))
+            d = dict(cls=getattr(G, cname), x=sym_tree(S, "x"), **args_of(S, cname))
+            if center is not None:
+                d["center"] = center
+            return d
 
         return setup
 
-    Rg.add(f"{GEO}:Rotate.__init__", prop="C12", variants={c: rot_setup(c) for c in ("root", "origin")},
-           ensures=[("matrix-is-rodrigues", tm_acts(lambda E, v, p: rodrigues(*cs(E, v), (R(v["nx"]), R(v["ny"]), R(v["nz"])), p))),
-                    "centre-as-requested :: self.center == center"])
+    has_root = ("has-a-root", lambda E, v, o: (lambda t, j: z3.Exists([j], z3.And(j >= 0, j < nof(t), z3.Select(col(t, "pid").arr, j) == -1)))(v["x"], z3.Int(fresh_name("j"))))
+
+    def xyz(t, i):
+        return [z3.Select(col(t, c).arr, i) for c in "xyz"]
+
+    def centre(E, v, o):
+        """the stated centre: the origin, or the coordinates of the first root row"""
+        if o.get("center", "origin") == "origin":
+            return [z3.RealVal(0)] * 3, None
+        r = _first_root_pos(E, o["x"])
+        return xyz(o["x"], r), r
+
+    def chain_moved(form, k):
+        """component k (x / y / z) of "every node goes to F(p - c0) + c0" -- one obligation per axis: a polynomial identity each"""
+        def f(E, v, o):
+            x0, y = o["x"], v["result"]
+            c0, _ = centre(E, v, o)
+            i = z3.Int(fresh_name("i"))
+            p, q = xyz(x0, i), xyz(y, i)
+            if form == "translate":  # a translation moves its centre along: q = p + t whatever the centre
+                exp = FORMS[form](params_of(E, o), p)
+            else:
+                exp = [e + c for e, c in zip(FORMS[form](params_of(E, o), [p[k] - c0[k] for k in range(3)]), c0)]
+            # both sides are polynomials in the node's coordinates, the centre and the parameters: the difference is handed over in
+            # sum-of-monomials normal form (an equivalence-preserving rewrite by z3's simplifier), where the identity is syntactic
+            return z3.ForAll([i], z3.Implies(z3.And(i >= 0, i < nof(x0)), z3.simplify(q[k] - exp[k], som=True) == 0))
+
+        return f
+
+    def centre_fixed(E, v, o):
+        """the chosen centre stays fixed: the root keeps its coordinates (centre = root); the origin is a fixed point of the matrix"""
+        c0, r = centre(E, v, o)
+        if r is None:
+            return True
+        q = xyz(v["result"], r)
+        return z3.And(*[z3.simplify(q[k] - c0[k], som=True) == 0 for k in range(3)])
+
+    def offsets_scaled(E, v, o):
+        """scaling multiplies root-relative offsets per axis (either centre)"""
+        x0, y = o["x"], v["result"]
+        r = _first_root_pos(E, x0)
+        i = z3.Int(fresh_name("i"))
+        p, q, pr, qr = xyz(x0, i), xyz(y, i), xyz(x0, r), xyz(y, r)
+        sc = [R(o["sx"]), R(o["sy"]), R(o["sz"])]
+        return z3.ForAll([i], z3.Implies(z3.And(i >= 0, i < nof(x0)), z3.And(*[q[k] - qr[k] == sc[k] * (p[k] - pr[k]) for k in range(3)])))
+
+    for cname, (form, _) in CLASSES.items():
+        extra = []
+        if cname == "Scale":
+            extra = [("the-chosen-centre-stays-fixed", centre_fixed), ("root-relative-offsets-are-multiplied-per-axis", offsets_scaled)]
+        elif cname != "Translate":
+            # "rotations preserve inter-node distances" / "followed by its inverse": lemmas `<form>-about-<centre>/...` over the clause below
+            # (stated directly over all node pairs the obligation is polynomial in two quantified nodes: 10 s and more)
+            extra = [("the-chosen-centre-stays-fixed", centre_fixed)]
+        kw = dict(setup=chain_setup(cname, None)) if cname == "Translate" else dict(variants={f"center={c}": chain_setup(cname, c) for c in ("root", "origin")})
+        Rg.add(f"{GEO}:{cname}.transform", prop="C12", requires=[has_root],
+               ensures=[(f"every-node-moved-by-the-stated-map-about-the-stated-centre/{ax}", chain_moved(form, k)) for k, ax in enumerate("xyz")] + extra
+               + [("topology-types-radii-untouched", AFF["untouched"]), ("coordinate-columns-keep-their-length", AFF["xyz_lengths"]),
+                  ("result-is-fresh", AFF["result_fresh"]), ("input-untouched", AFF["input_untouched"]("x"))],
+               **kw)
 
 
 def lemmas():
-    """Derived facts over the builders' spec forms (pure real arithmetic)."""
+    """Derived clauses of the property as lemmas over the PROVED postcondition formulas: `acts_as` (builders / constructors: the matrix
+    acts as the stated form) and `affine_about` (AffineTransform.__call__: every node goes to A (p - c0) + b + c0)."""
     out = []
     c, s, nx, ny, nz = z3.Reals("c s nx ny nz")
-    px, py, pz, qx, qy, qz = z3.Reals("px py pz qx qy qz")
+    sx, sy, sz, tx, ty, tz = z3.Reals("sx sy sz tx ty tz")
+    P, Q, C0 = z3.Reals("px py pz"), z3.Reals("qx qy qz"), z3.Reals("cx cy cz")
     circ = [c * c + s * s == 1]
     unit = [nx * nx + ny * ny + nz * nz == 1]
     d2 = lambda a, b: sum(((a[k] - b[k]) * (a[k] - b[k]) for k in range(3)), z3.RealVal(0))
-    forms = {
-        "x": lambda p: [p[0], c * p[1] - s * p[2], s * p[1] + c * p[2]],
-        "y": lambda p: [c * p[0] + s * p[2], p[1], -s * p[0] + c * p[2]],
-        "z": lambda p: [c * p[0] - s * p[1], s * p[0] + c * p[1], p[2]],
-    }
-    P, Q = (px, py, pz), (qx, qy, qz)
-    for ax, f in forms.items():
-        out.append((f"rotation-{ax}-preserves-distances", circ, d2(f(P), f(Q)) == d2(P, Q)))
-        inv = {"x": lambda p: [p[0], c * p[1] + s * p[2], -s * p[1] + c * p[2]],
-               "y": lambda p: [c * p[0] - s * p[2], p[1], s * p[0] + c * p[2]],
-               "z": lambda p: [c * p[0] + s * p[1], -s * p[0] + c * p[1], p[2]]}[ax]
-        out.append((f"rotation-{ax}-then-inverse-is-identity", circ, z3.And(*[a == b for a, b in zip(inv(f(P)), P)])))
-    rod = lambda p: rodrigues(c, s, (nx, ny, nz), p)
-    out.append(("rodrigues-fixes-its-axis", circ + unit, z3.And(*[a == b for a, b in zip(rod((nx, ny, nz)), (nx, ny, nz))])))
-    out.append(("rodrigues-preserves-distances", circ + unit, d2(rod(P), rod(Q)) == d2(P, Q)))
-    rod_inv = lambda p: rodrigues(c, -s, (nx, ny, nz), p)
-    out.append(("rodrigues-then-inverse-is-identity", circ + unit, z3.And(*[a == b for a, b in zip(rod_inv(rod(P)), P)])))
-    sx, sy, sz, tx, ty, tz = z3.Reals("sx sy sz tx ty tz")
-    out.append(("scale-then-inverse-is-identity", [sx != 0, sy != 0, sz != 0], z3.And(px * sx * (1 / sx) == px, py * sy * (1 / sy) == py, pz * sz * (1 / sz) == pz)))
-    out.append(("translate-then-inverse-is-identity", [], z3.And(px + tx - tx == px, py + ty - ty == py, pz + tz - tz == pz)))
-    # centred map p -> A(p - r) + r fixes r when A has no translation part
-    rx = z3.Real("rx")
+    eq3 = lambda a, b: z3.And(*[x == y for x, y in zip(a, b)])
+    sub = lambda a, b: [a[k] - b[k] for k in range(3)]
+    prm = dict(c=c, s=s, nx=nx, ny=ny, nz=nz, sx=sx, sy=sy, sz=sz, tx=tx, ty=ty, tz=tz)
+    inv_prm = dict(prm, s=-s, sx=1 / sx, sy=1 / sy, sz=1 / sz, tx=-tx, ty=-ty, tz=-tz)  # angle -theta: (cos, sin) -> (cos, -sin), see pyvc.narr.trig
+    side = {"translate": [], "scale": [sx != 0, sy != 0, sz != 0], "rot_x": circ, "rot_y": circ, "rot_z": circ, "rodrigues": circ + unit}
+    short = {"translate": "translate", "scale": "scale", "rot_x": "rotation-x", "rot_y": "rotation-y", "rot_z": "rotation-z", "rodrigues": "rodrigues"}
+    # ---- over the stated forms themselves
+    for form in ("rot_x", "rot_y", "rot_z", "rodrigues"):
+        f = lambda p, _f=form: FORMS[_f](prm, p)
+        out.append((f"{short[form]}-preserves-distances", side[form], d2(f(P), f(Q)) == d2(P, Q)))
+    for form in FORMS:
+        f, g = (lambda p, _f=form: FORMS[_f](prm, p)), (lambda p, _f=form: FORMS[_f](inv_prm, p))
+        out.append((f"{short[form]}-then-inverse-is-identity", side[form], eq3(g(f(P)), P)))
+    out.append(("rodrigues-fixes-its-axis", circ + unit, eq3(FORMS["rodrigues"](prm, (nx, ny, nz)), (nx, ny, nz))))
+    # ---- A. over the postconditions: M = 16 arbitrary reals (the matrix of a transform object).  The constructor's postcondition
+    # (`acts_as` at the offset of a node from the centre) and the call's postcondition (`affine_about`) compose to the EFFECTIVE MAP
+    # q = F(p - c0) + c0 -- which is also the postcondition proved for the real chain X.transform(x, ...) = X(...)(x)
+    M = [z3.Real(f"m{r}{k}") for r in range(4) for k in range(4)]
+    zero = [z3.RealVal(0)] * 3
+    U, V, UC, W = z3.Reals("ux uy uz"), z3.Reals("vx vy vz"), z3.Reals("ucx ucy ucz"), z3.Reals("wx wy wz")
+    add = lambda a, b: [a[k] + b[k] for k in range(3)]
+    for form in FORMS:
+        f = lambda p, _f=form: FORMS[_f](prm, p)
+        g = lambda p, _f=form: FORMS[_f](inv_prm, p)
+        for cname, c0 in (("root", list(C0)), ("origin", zero)):
+            tag = f"{short[form]}-about-{cname}"
+            di = sub(P, c0)
+            eff = (lambda p, _c0=c0, _f=f: add(_f(sub(p, _c0)), _c0)) if form != "translate" else f
+            if form == "translate":
+                # a translation matrix has a translation part: the call moves the centre along, q = p + t for either centre
+                out.append((f"{tag}/constructor-and-call-postconditions-compose-to-the-stated-map", [acts_as(M, di, f(di)), acts_as(M, zero, f(zero))], eq3(affine_about(M, P, c0), f(P))))
+            else:
+                out.append((f"{tag}/constructor-and-call-postconditions-compose-to-the-stated-map", [acts_as(M, di, f(di))], eq3(affine_about(M, P, c0), eff(P))))
+            # ---- B. consequences of the effective map at two nodes p, q (images u, v) and at the centre (image uc)
+            images = [eq3(U, eff(P)), eq3(V, eff(Q)), eq3(UC, eff(c0))]
+            if form != "translate":
+                out.append((f"{tag}/the-centre-stays-fixed", side[form] + images, eq3(UC, c0)))
+            if form == "scale":
+                out.append((f"{tag}/offsets-from-any-node-are-multiplied-per-axis", side[form] + images, eq3(sub(U, V), [sx * (P[0] - Q[0]), sy * (P[1] - Q[1]), sz * (P[2] - Q[2])])))
+            else:
+                out.append((f"{tag}/inter-node-distances-are-preserved", side[form] + images, d2(U, V) == d2(P, Q)))
+            # the inverse transform (same class, parameters -t / 1/s / -theta, same centre mode) applied to the RESULT: its centre is the
+            # image uc of the first centre (the root row is the same row: parents are untouched)
+            c1 = list(UC) if cname == "root" else zero
+            eff2 = (lambda p, _c1=c1, _g=g: add(_g(sub(p, _c1)), _c1)) if form != "translate" else g
+            out.append((f"{tag}/followed-by-its-inverse-restores-the-coordinates", side[form] + images + [eq3(W, eff2(U))], eq3(W, P)))
     return out
 
 
